@@ -23,6 +23,11 @@ def allflags(rng, tier):
                 l = cases.make_case(rng, cid, e)
                 l = cases.patch_state(l, F=f, B=f)
             lines.append(l); meta[cid] = (e[0], "%02X" % e[1])
+            if e[0] == "main" and e[1] == 0x10:
+                # DJNZ counts in B alone: every B with C all zeros and all ones
+                for cval in (0x00, 0xFF):
+                    cid = "f%d" % k; k += 1
+                    lines.append(cases.patch_state(cases.make_case(rng, cid, e), B=f, C=cval)); meta[cid] = (e[0], "10")
     return lines, meta
 
 def run(tier, seed):
